@@ -243,6 +243,7 @@ impl SchedulerCore {
                             let job_data = {
                                 let mut busy = also_busy.lock().expect("Thread busy lock");
                                 let job_data = next_job();
+                                #[cfg(desync_verif)] super::verif_hooks::point("dormant:after_next_job");
 
                                 // If there's no next job, then this thread is no longer busy
                                 if job_data.is_none() {
